@@ -226,6 +226,7 @@ fn c12_seq_runs(tier: &str) -> Vec<(String, SeqParams)> {
                 wall_cap_s: if quick { 40.0 } else { 1500.0 },
                 threads: threads(),
                 seed: seed(),
+                reopen_subsets_up_to: 0,
             },
         )
     };
@@ -280,6 +281,7 @@ pub fn seq_runs(id: &str, tier: &str) -> Vec<(String, SeqParams)> {
                 wall_cap_s: if quick { 40.0 } else { 1500.0 },
                 threads: threads(),
                 seed: seed(),
+                reopen_subsets_up_to: 0,
             },
         )
     };
@@ -376,6 +378,9 @@ pub fn seq_runs(id: &str, tier: &str) -> Vec<(String, SeqParams)> {
         if quick && id == "C13" && r.1.alphabet.n_clients > 1 {
             r.1.max_depth = 4;
         }
+        if id == "C13" {
+            r.1.reopen_subsets_up_to = if quick { 4 } else { 5 };
+        }
     }
     runs
 }
@@ -438,6 +443,7 @@ pub fn absorb_seq(rep: &mut Report, id: &str, name: &str, p: &SeqParams, r: &Seq
     rep.add_count("solo_runs", r.stats.solo_runs);
     rep.add_count("collateral_deviations_pruned", r.stats.collateral);
     rep.add_count("http_responses_checked", r.stats.http_responses);
+    rep.add_count("histories_rerun_with_reopen_subsets", r.stats.reopen_subsets);
     runs_json.push(json!({
         "run": name,
         "params": params_json(p),
@@ -711,6 +717,7 @@ fn c16_c20_seq_runs(id: &str, tier: &str) -> Vec<(String, SeqParams)> {
                 wall_cap_s: if quick { 40.0 } else { 1500.0 },
                 threads: threads(),
                 seed: seed(),
+                reopen_subsets_up_to: 0,
             },
         )
     };
@@ -1398,6 +1405,31 @@ fn c19_check(tier: &str, replay: Option<&str>) -> i32 {
         return 2;
     }
     let depth = if quick { 1 } else { 2 };
+    // Snapshot ages are whole days since the recorded timestamps. If one of them is about to
+    // tick over during this run, the expectation computed now and the server's own clock a few
+    // seconds later could disagree by a day: wait until the tick has passed (at most a few
+    // minutes, once a day; all fixtures were written within one minute).
+    {
+        let now = chrono::Utc::now().timestamp();
+        let horizon = if quick { 240 } else { 900 };
+        let mut wait = 0i64;
+        for d in &dirs {
+            if let Some(m) = std::fs::read_to_string(d.join("meta.json")).ok().and_then(|s| serde_json::from_str::<Value>(&s).ok()) {
+                if let Some(o) = m["snapshot_ts"].as_object() {
+                    for ts in o.values().filter_map(|x| x.as_i64()) {
+                        let to_tick = 86400 - (now - ts).rem_euclid(86400);
+                        if to_tick <= horizon {
+                            wait = wait.max(to_tick + 2);
+                        }
+                    }
+                }
+            }
+        }
+        if wait > 0 {
+            eprintln!("C19: waiting {wait} s for a fixture's snapshot age to tick over");
+            std::thread::sleep(std::time::Duration::from_secs(wait as u64));
+        }
+    }
     let tasks: Vec<Value> = dirs.iter().map(|d| json!({"dir": d.display().to_string(), "depth": depth})).collect();
     let mut pool = crate::pool::Pool::spawn(threads(), "corpus", &json!({}));
     let results = pool.map(&tasks);
